@@ -159,8 +159,11 @@ class DecayConfig(BaseConfig):
         for i in s:
             if i in d:
                 if isinstance(d[i], dict):
-                    s[i].update(d[i])
-                    d[i] = s[i]
+                    # keys already defined come last: they also win over an
+                    # alias (m0/mass, ...) of the included file in rename_params
+                    new = {k: v for k, v in s[i].items() if k not in d[i]}
+                    new.update(d[i])
+                    d[i] = new
             else:
                 d[i] = s[i]
 
